@@ -55,6 +55,32 @@ Third round (other source files, table UNITS; one generated file per unit):
   the loop's Fixpoint answer `inl e` (the function's result) | `inr <variables read afterwards>`.  Calls that are NOT translated
   become prelude symbols that are the callee's hand model (EXTERN: cidr_merge -> py_cidr_merge; list(x.subnet(p, count=c)) ->
   py_list_subnet, Model/SrcPreludeSplitter.v).  A parameter declared `optint` is None or an int (option Z) and may only be passed on.
+* netaddr/ip/__init__.py, IPListMixin -> coq/Gen/pysrc_listlike_gen.v (a second unit over the same file; everything it does not list
+  is the first unit's).  `"method:variant"` in a unit's entry is a specialisation of the method by the declared parameter types:
+  `hasattr(<parameter>, '<name>')` is decided by the declared type (HASATTR), so __getitem__ is translated once for an int index and
+  once for a slice index (a slice = the triple of its components, each None or an int).  `try: body / except E1: raise E2(..)` =
+  `do <variables assigned in body> <- py_except E1 E2 (body); rest` (body: assignments, if, raise only).  `index.indices(n)` =
+  py_slice_indices, `len(_iter_range(a, b, c))` = py_range_len, `_sys_maxint` = ssize_max (Model/PySlice.v; compat_ok() checks how
+  netaddr/compat.py binds the two names), `iter([])` = ItEmpty and the not yet started generator `iter_iprange(a, b, step)` =
+  ItIprange (Model/ListLike.v).
+* netaddr/strategy/__init__.py -> pysrc_strategy_gen.v: a word sequence is a list of ints.  `len(l)` = Z.of_nat (length l);
+  `for _ in range(n)` = a Fixpoint on the nat Z.to_nat n (the loop variable must not be read); `for i, x in enumerate(l)` carries
+  the counter i = 0, 1, ..; `reversed(l)` = rev l where it is consumed at once (for / enumerate / tuple); `tuple(l)` = l.
+* netaddr/strategy/eui48.py, eui64.py -> pysrc_eui48_gen.v, pysrc_eui64_gen.v: a dialect parameter (`optdialect`) is None or the
+  pair (word_size, num_words) of a dialect class; `if dialect is None: dialect = DEFAULT` binds the pair; DEFAULT is a generated
+  constant read from the class bodies (int constant expressions, evaluated per class body, looked up through the bases).  A function
+  imported under an alias from another unit's module (`from netaddr.strategy import int_to_words as _int_to_words`) is that unit's
+  translated definition.
+* netaddr/eui/__init__.py -> pysrc_eui_gen.v: an EUI receiver is (ver, v) = (_module.version, _value); `self._module == _eui48` /
+  `is` = `ver =? src_eui48_version` (the modules are told apart by their regenerated `version` constants); `name = property(_getter,
+  ..)` is read through `_getter`; `self.__class__(e, version=k)` = mk_eui k e (Model/SrcPreludeEui.v = eui_init on an int);
+  `OUI(e)` / `IAB(e)` are represented by the integer e (CTOR_AS_ARG: the registry lookup of the constructor is not translated);
+  `e in C.ATTR` for a class-level tuple of int literals = existsb (Z.eqb e) [..]; `x._value op= e` on an owned local EUI object
+  is a record update (and `return x` is allowed for an owned object); `int(x)` = the translated __int__.
+* netaddr/ip/__init__.py, classification -> pysrc_classify_gen.v (needs Gen/classify_gen.v): the block tables are module-level
+  names whose VALUES harness/gen/classify.py regenerates (UNIT_TABLES: one row (kind, version, a, b) or a list of rows);
+  `self in T` = src_contains_row T <receiver as operand> (UNIT_PREAMBLE: the translated __contains__ of the row's class);
+  `if self.m():` / `not self.m()` for a method that returns a bool on some paths and None on the others = py_truthy.
 Conventions (DESIGN 3): Python ints are Z; a shift count that depends on a parameter gets CPython's `ValueError: negative shift
 count` guard, a count built from object state and literals only is taken as non-negative (class invariant 0 <= prefixlen <=
 width); method parameters are ints unless declared otherwise in WHITELIST; every parameter of a module-level function is declared in FUNCS.
